@@ -145,7 +145,7 @@ func (s *sim) blockMutants(bs *BlockSpec, muts []MutSpec) {
 		var inMain, orphan bool
 		var err error
 		if p := callGuard(func() { inMain, orphan, err = s.node.chain.ProcessBlock(mb, nil) }); p != nil {
-			c.Violate("C03", "process-block", "C03/ProcessBlock-panic/mutant-"+kind, "ProcessBlock panicked on a %s mutant of block #%d: %v", kind, orig.idx, p)
+			c.Violate("C03", "process-block", "C03/ProcessBlock-panic/"+lastPanicSite, "ProcessBlock panicked in %s on a %s mutant of block #%d: %v", lastPanicSite, kind, orig.idx, p)
 			s.dead = true
 			return
 		}
@@ -161,7 +161,7 @@ func (s *sim) blockMutants(bs *BlockSpec, muts []MutSpec) {
 	var inMain bool
 	var err error
 	if p := callGuard(func() { inMain, _, err = s.node.chain.ProcessBlock(orig.blk, nil) }); p != nil {
-		c.Violate("C03", "process-block", "C03/ProcessBlock-panic/original-after-mutants", "ProcessBlock panicked: %v", p)
+		c.Violate("C03", "process-block", "C03/ProcessBlock-panic/"+lastPanicSite, "ProcessBlock panicked in %s: %v", lastPanicSite, p)
 		s.dead = true
 		return
 	}
